@@ -2,11 +2,11 @@ SPECIFICATION Spec
 CONSTANTS
   Kind = "EMG"
   NI = 2
-  MaxItems = 3
+  MaxItems = 2
   MaxChan = 3
-  Labels = {1, 2}
-  Chans = {0, 1, 2}
-  Edits = FALSE
+  Labels = {1}
+  Chans = {1}
+  Edits = TRUE
   AutoRule = "max"
 INVARIANT InvConforms
 INVARIANT InvAligned
